@@ -178,8 +178,46 @@ def _in_child(fn, timeout=180):
     return res
 
 
+def hashseed_outcome(pid, sc):
+    """A scenario whose violation is 'the event log depends on the interpreter's string-hash seed': executed once in each of
+    two fresh interpreters (PYTHONHASHSEED values in sc['_hashseed_pair']); differing event-log digests are the violation."""
+    import subprocess
+    import tempfile
+    seeds = list(sc["_hashseed_pair"])
+    tag = sc.get("_hashseed_tag") or (pid + "/hash_seed_dependence")
+    plain = {k: v for k, v in sc.items() if k not in ("violation",)}
+    fd, path = tempfile.mkstemp(prefix="dsim-hs-", suffix=".json")
+    with os.fdopen(fd, "w") as f:
+        json.dump(plain, f, default=str)
+    digs = []
+    try:
+        for hs in seeds:
+            env = dict(os.environ, PYTHONHASHSEED=str(hs))
+            env["PYTHONPATH"] = VERIF + os.pathsep + env.get("PYTHONPATH", "")
+            p = subprocess.run([sys.executable, "-m", "dsim.engine", pid, "--scenario-digest", path], env=env, capture_output=True,
+                               text=True, timeout=600, cwd=VERIF)
+            lines = [ln for ln in p.stdout.splitlines() if ln.startswith("DIGEST ")]
+            if p.returncode != 0 or not lines:
+                raise RuntimeError("fresh interpreter (PYTHONHASHSEED=%s) failed: %s" % (hs, (p.stderr or p.stdout)[-400:]))
+            digs.append(lines[-1].split(" ", 2)[1:])
+    finally:
+        os.unlink(path)
+    (d0, t0), (d1, t1) = digs
+    if t0 != "-" or t1 != "-":        # an ordinary oracle fired in one of the interpreters: report that instead
+        tags = [t for t in (t0 + "," + t1).split(",") if t and t != "-"]
+        return ([(tags[0], "reported in a fresh interpreter (PYTHONHASHSEED %s / %s: %s / %s)" % (seeds[0], seeds[1], t0, t1))], d0)
+    if d0 != d1:
+        return ([(tag, "same scenario, same random tapes: event-log digest %s under PYTHONHASHSEED=%s and %s under PYTHONHASHSEED=%s, each in a "
+                       "fresh interpreter (something in the run iterates a set / dict keyed by strings whose order is the hash seed's)"
+                       % (d0, seeds[0], d1, seeds[1]))], d0)
+    return ([], d0)
+
+
 def isolated_tags(pid, sc):
     """Oracle tags (and details, digest) of one scenario executed in a process that has executed nothing else."""
+    if sc.get("_hashseed_pair"):
+        return hashseed_outcome(pid, sc)
+
     def fn():
         out = safe_check(load_prop(pid), pid, json.loads(json.dumps(sc)))
         return (out.viol, out.digest)
@@ -220,7 +258,12 @@ def replay(pid, path):
     mod = load_prop(pid)
     sc = json.load(open(path))
     want = sc.get("violation", {}).get("oracle")
-    out = safe_check(mod, pid, sc)
+    if sc.get("_hashseed_pair"):
+        viol, dig = hashseed_outcome(pid, sc)
+        out = Outcome()
+        out.viol, out.digest = list(viol), dig
+    else:
+        out = safe_check(mod, pid, sc)
     print("replay %s: expected oracle=%s got=%s digest=%s" % (path, want, out.tags(), out.digest))
     if out.viol:
         tag, detail = out.viol[0]
@@ -278,6 +321,7 @@ def main(argv=None):
     ap.add_argument("--workers", type=int, default=int(os.environ.get("VERIF_WORKERS", "16")))
     ap.add_argument("--no-shrink", action="store_true")
     ap.add_argument("--digests", type=int, help="determinism self-test: print 'idx digest tags' for run indices 0..N-1")
+    ap.add_argument("--scenario-digest", help="execute one scenario file and print 'DIGEST <event-log digest> <oracle tags or ->'")
     a = ap.parse_args(argv)
     pid = a.pid.upper()
     seed = int(os.environ.get("VERIF_SEED", "0") or 0)
@@ -287,6 +331,12 @@ def main(argv=None):
         os.execv(sys.executable, [sys.executable, "-m", "dsim.engine"] + (argv if argv is not None else sys.argv[1:]))
     if a.digests:
         return digests(pid, a.tier, seed, a.digests, a.workers)
+    if a.scenario_digest:
+        sc_ = json.load(open(a.scenario_digest))
+        sc_.pop("_hashseed_pair", None)
+        o_ = safe_check(load_prop(pid), pid, sc_)
+        print("DIGEST %s %s" % (o_.digest, ",".join(sorted(o_.tags())) or "-"))
+        return EXIT_OK
     if a.replay:
         try:
             return replay(pid, a.replay)
@@ -399,8 +449,8 @@ def main(argv=None):
             continue
         seen_tags.add(tag)
         # minimisation runs in a child too, so that this process never executes a scenario itself
-        if a.no_shrink:
-            small, sruns = sc, 0
+        if a.no_shrink or sc.get("_hashseed_pair"):
+            small, sruns = sc, 0          # (a hash-seed pair costs two interpreter starts per candidate: reported unreduced)
         else:
             res = _in_child(lambda: shrink(load_prop(pid), sc, tag), timeout=240)
             small, sruns = res if res is not None else (sc, 0)
